@@ -4,12 +4,13 @@ import copy
 import os
 import time
 
-BIG = 70000
+BIG = 150001           # more than one read of a TCP socket, less than a socketpair buffer (a bigger unread result blocks the child: C02 territory)
+_UNIT = bytes((i * 31 + 7) % 251 for i in range(251))
 SPECIALS = ('@none', '@zero', '@empty', '@big')
 
 
 def big_value():
-    return bytes((i * 31 + 7) % 251 for i in range(BIG))
+    return (_UNIT * (BIG // 251 + 1))[:BIG]       # period 251: chunk boundaries practically never fall on a multiple of it
 
 
 def _special(a):
